@@ -134,6 +134,18 @@ class Dropped:
             setattr(self, k, getattr(self, k) + getattr(other, k))
 
 
+def _schema_is_string(sch) -> bool:
+    r = getattr(sch, '_is_string', None)
+    if r is None:
+        try:
+            d = z3.Int('__probe')
+            r = smt.involves_strings(sch.inst(d, d) if sch.arity == 2 else sch.inst(d))
+        except Exception:
+            r = False
+        sch._is_string = r
+    return r
+
+
 class Ctx:
     def __init__(self, explorer, prefix):
         self.ex = explorer
@@ -147,6 +159,9 @@ class Ctx:
         self.effects = []            # ghost effect log: ('WARN', cls), ('LOG',) ...
         self.extractors = {}         # input name -> callable(model) -> python value  (for replay)
         self.used_lemmas = set()     # names of proved lemmas whose instances were used as hypotheses
+        self.cnt_mono = False        # add cnt_mono instances over pairs of instantiation terms
+        self.len_vars = []           # length variables of list / table inputs (for small counter-models)
+        self.ghost = {}              # ghost values exposed to the contract (e.g. selected rows of a mask filter)
         self.fn_stack = []
 
     # ---- path condition -------------------------------------------------------------------
@@ -158,6 +173,8 @@ class Ctx:
     def assume(self, f):
         if isinstance(f, smt.Forall):
             self.schemas.append(f)
+            if f.atom is not None:
+                self.pc.append(f.atom)
         elif isinstance(f, smt.Exists):
             w = fresh_int(f.name)
             self.pc.append(f.at(w))
@@ -187,9 +204,14 @@ class Ctx:
     def path_id(self):
         return ''.join('T' if d is True else 'F' if d is False else f'[{d}]' for d in self.decisions)
 
-    def hyps(self, extra_terms=()):
-        """quantifier-free hypothesis set: pc + schema instances + cnt unfoldings at the instantiation terms."""
-        terms = list(self.hint_terms)
+    def hyps(self, extra_terms=(), snap=None):
+        """quantifier-free hypothesis set: pc + schema instances + cnt unfoldings at the instantiation terms.
+        snap = (len pc, len schemas, len hints, len cnt arrays): the state of the path when an obligation was emitted."""
+        if snap is not None:
+            pc_, schemas_, hints_, cnts_ = self.pc[:snap[0]], self.schemas[:snap[1]], self.hint_terms[:snap[2]], self.cnt_arrays[:snap[3]]
+        else:
+            pc_, schemas_, hints_, cnts_ = self.pc, self.schemas, self.hint_terms, self.cnt_arrays
+        terms = list(hints_)
         for t in extra_terms:
             t = lift(t)
             if not any(t.eq(u) for u in terms):
@@ -201,9 +223,15 @@ class Ctx:
                 u = z3.simplify(u)
                 if not any(u.eq(w) for w in terms):
                     terms.append(u)
-        hy = list(self.pc)
-        for sch in self.schemas:
-            for t in terms:
+        hy = list(pc_)
+        for sch in schemas_:
+            if sch.arity == 2:
+                for t in base:
+                    for u in base:
+                        hy.append(sch.inst(t, u))
+                continue
+            # string-valued schemas (e.g. code[i] == abbr ++ digits) are instantiated at the primary terms only
+            for t in (base if _schema_is_string(sch) else terms):
                 hy.append(sch.inst(t))
         arrays = []
 
@@ -213,9 +241,16 @@ class Ctx:
             arrays.append(a)
             if z3.is_store(a):
                 add_arr(a.arg(0))
-        for a in self.cnt_arrays:
+        for a in cnts_:
             add_arr(a)
         for a in arrays:
+            if self.cnt_mono:
+                # instances of the proved lemma `cnt_mono`: 0 <= t <= u  =>  cnt(a, t) <= cnt(a, u)
+                for t in terms:
+                    for u in base:
+                        if not t.eq(u):
+                            hy.append(z3.Implies(z3.And(0 <= t, t <= u), cnt(a, t) <= cnt(a, u)))
+                self.used_lemmas.add('cnt_mono')
             for t in terms:
                 hy.append(cnt_def(a, t))
                 if z3.is_store(a):
@@ -240,6 +275,9 @@ class Ctx:
             d = self.prefix[pos]
         else:
             hy = self.hyps()
+            if not smt.involves_strings(cond):
+                # relevance filter: over-approximates feasibility (sound), keeps branch tests out of the string solver
+                hy = [h for h in hy if not smt.involves_strings(h)]
             can_t = smt.quick_sat(hy + [cond], self.ex.branch_timeout_ms) != 'unsat'
             can_f = smt.quick_sat(hy + [z3.Not(cond)], self.ex.branch_timeout_ms) != 'unsat'
             if can_t and can_f:
@@ -275,22 +313,45 @@ class Ctx:
         name = f'{fn}::{kind_clause}'
         goals = goal if isinstance(goal, (list, tuple)) else [goal]
         for g in goals:
-            if isinstance(g, smt.Forall):
+            local = []
+            isolate = False
+            if isinstance(g, smt.Sequent):
+                isolate = g.isolate
+                for k, h in enumerate(g.hyps):
+                    if isinstance(h, smt.LemmaInst):
+                        self.used_lemmas.add(h.name)
+                        local.append(h.formula)
+                        continue
+                    h = lift(h) if isinstance(h, bool) else h
+                    if isolate:
+                        # cut: the local hypothesis is itself an obligation under the full path hypotheses
+                        self.obligations.append(Obligation(f'{name}.cut{k}', self.hyps(extra_terms), h, 'valid', self.path_id()))
+                    local.append(h)
+                g = g.goal
+            skolems = []
+            if isinstance(g, smt.Forall) and g.arity == 2:
+                j, j2 = fresh_int(g.name), fresh_int(g.name + 'b')
+                gg = g.inst(j, j2)
+                skolems = [j, j2]
+            elif isinstance(g, smt.Forall):
                 j = fresh_int(g.name)
                 gg = g.inst(j)
-                hy = self.hyps(list(extra_terms) + [j])
+                skolems = [j]
             elif isinstance(g, smt.Exists):
                 cands = list(self.hint_terms) + [lift(t) for t in extra_terms]
                 gg = z3.Or(*[g.at(t) for t in cands]) if cands else z3.BoolVal(False)
-                hy = self.hyps(extra_terms)
             elif isinstance(g, bool):
                 gg = z3.BoolVal(g)
-                hy = self.hyps(extra_terms)
             else:
                 gg = g
-                hy = self.hyps(extra_terms)
-            ob = Obligation(name, hy, gg, expect, self.path_id())
+            et = list(extra_terms) + skolems
+            hy = self.hyps(et)
+            ob = Obligation(name, (local if isolate else hy + local), gg, expect, self.path_id())
             ob.info = dict(self.extractors)
+            if not isolate:
+                snap = (len(self.pc), len(self.schemas), len(self.hint_terms), len(self.cnt_arrays))
+                ob.rehyp = (lambda more, et=et, local=local, snap=snap: self.hyps(et + list(more), snap) + local)
+                ob.len_vars = list(self.len_vars)
             self.obligations.append(ob)
 
     def safe(self, what, cond, exc='Exception'):
